@@ -29,7 +29,7 @@ OPS = {
 MORE_OPS = {"DALL": "delete from t", "R": None}
 ALL_OPS = dict(OPS, **MORE_OPS)
 # non-initial start state: two row-sets deleted completely, compacted away, database reopened twice (disk)
-CHURN = ["IT1", "IT2", "DALL", "C", "R", "R"]
+CHURN = ["IT1", "IT2", "D1", "DALL", "C", "R", "R"]       # (two delete vectors per row-set)
 QUERIES = [
     ("select k, v, s from t", None),
     ("select k, v from t order by k", [0]),
